@@ -32,6 +32,10 @@ EXPLANATION = (
     ' The finding key of the direction clause of R06.5 carries the criterion the code uses (determinant / sign'
     ' of a*d / other), so that the recorded known finding (sign of a*d) does not hide a different wrong'
     ' criterion.'
+    " R06.8: C02's lazy-transform rules (X * M on a copy, abs() reifies a copy, each reify maps every stored"
+    ' point, resets the matrix and calls both base reify methods, which rescale the stroke width and drop the'
+    ' cached lengths) run here as well. R06.2 also requires the re-validation in Rect.render to be an'
+    " unconditional statement: the constructor's clamp is skipped whenever a SIDE is still a length."
 )
 TECHNIQUE = (
     "static analysis (no execution): segment-sequence extraction from segments() (value numbering, constant loops unrolled, index loops summarised by induction) compared with the SVG 2 chapter 10 equivalent paths; corner decision table by dispatch extraction; save/restore path check"
